@@ -689,10 +689,21 @@ def cap_products(case, sep, cap):
 # ---------------------------------------------------------------- labelled transition systems
 def g_lts(rng):
     big = rng.random() < 0.12
+    huge = rng.random() < 0.01
     n = rng.randint(13, 30) if big else rng.randint(1, 8)
     nl = rng.randint(1, 4 if big else 3)
     ne = rng.randint(n, 3 * n) if big else rng.randint(0, 3 * n)
     edges = []
+    if huge:
+        # 66-150 states most of which end in blocks of their own (a chain: the distance to the end separates them), so that
+        # the partition grows one block at a time past 64 and 128 – the sizes at which bit vectors indexed by blocks get a new word
+        n = rng.randint(66, 150)
+        nl = rng.randint(1, 2)
+        order = list(range(n))
+        if rng.random() < 0.5:
+            rng.shuffle(order)
+        edges = [(order[i], 0, order[i + 1]) for i in range(n - 1)]
+        ne = rng.randint(0, n // 4)
     for _ in range(ne):
         edges.append((rng.randrange(n), rng.randrange(nl), rng.randrange(n)))
     if rng.random() < 0.4 and edges:
